@@ -15,6 +15,7 @@ import subprocess
 from vlib import core
 
 NPROC = 8
+NINITS = 12         # Len(FsTreeGen!Inits), checked against what TLC prints
 
 
 # ------------------------------------------------------------------------------------------
@@ -253,7 +254,7 @@ def gen_sequences(chk, mode, depth, opset, npicks=0, workers=8):
     if mode == "picks":
         rng = random.Random(chk.seed * 7919 + depth)
         ppath = os.path.join(chk.work, "picks_%d.ndjson" % depth)
-        core.write_ndjson(ppath, [{"init": rng.randint(1, 10), "picks": [[rng.randint(0, 10**6) for _ in range(4)]
+        core.write_ndjson(ppath, [{"init": rng.randint(1, NINITS), "picks": [[rng.randint(0, 10**6) for _ in range(4)]
                                                                         for _ in range(rng.randint(2, depth))]}
                                   for _ in range(npicks)])
         env["PICKS"] = ppath
@@ -330,6 +331,12 @@ def scale_plans(tier, rng):
                                             op("copy", [a, b], [b]), op("rename", [a, c], [c]),
                                             op("write", [a, a], c=small([7, 7])), op("read_dir", [a]),
                                             op("remove_dir_all", [a]), op("exists", [a])]})
+    # -- names that start with dots (only "." and ".." themselves are relative references)
+    tree = root + [D(["d"]), D(["d", ".h"]), F(["d", ".h", "x"], small([1])), D(["d", "..h"]), F(["d", "..h", ".y"], small([2])),
+                   F(["d", ".f"], small([3])), D(["d", "..."]), D(["d", "...", ".."+"."]), F(["d", ".a."], small([4])), F(["keep"], small([5]))]
+    plans.append({"tree": tree, "ops": [op("read_dir", ["d"]), op("read_dir", ["d", "..."]), op("metadata", ["d", ".h", "x"]),
+                                        op("copy", ["d", ".f"], ["d", "..h", ".y"]), op("remove_dir_all", ["d", "..h"]),
+                                        op("remove_dir_all", ["d"]), op("read", ["keep"])]})
     # -- big files: write / read / copy over shorter, equal, longer destinations
     sizes = [65, 4096, 70000, 1 << 20] + ([8 << 20] if tier == "thorough" else [])
     for n in sizes:
@@ -542,10 +549,16 @@ def run(tier):
 
     # ---- 2. operation sequences generated by TLC
     inits, plans1, _ = fut_enum.result()
+    if len(inits) != NINITS:
+        raise core.ToolError("FsTreeGen has %d initial trees, the check expects %d" % (len(inits), NINITS))
     if tier == "quick":
         # every (operation, path spelling, prior state) once is 22k runs; quick keeps every operation on every
         # initial tree and every spelling, but thins the two-path operations
-        keep = [p for k, p in enumerate(plans1) if p["ops"][0]["op"] not in ("copy", "rename") or k % 3 == chk.seed % 3]
+        light = ("exists", "metadata", "remove_file", "remove_dir", "create_dir", "read", "oopen")
+        keep = [p for k, p in enumerate(plans1)
+                if (p["ops"][0]["op"] in ("copy", "rename") and k % 3 == chk.seed % 3)
+                or (p["ops"][0]["op"] in light and k % 2 == chk.seed % 2)
+                or p["ops"][0]["op"] not in ("copy", "rename") + light]
         plans1 = keep
     _, plans_s, _ = fut_picks.result()
     plans2 = []
